@@ -20,7 +20,8 @@ def encode_events(events, widths, big, datatype):
 
 def build_fcs(events, widths, big=True, datatype='I', ranges=None, version='FCS3.0',
               overrides=None, header_data=None, text_data=None, extra_text=None, delim='|',
-              analysis=None, names=None, pad=2, one_past=False, byteord=None, drop=()):
+              analysis=None, names=None, pad=2, one_past=False, byteord=None, drop=(),
+              stext=None, analysis_in_header=True, analysis_in_text=True):
     """-> (file bytes, layout dict).  overrides replace keyword values verbatim."""
     D = len(widths)
     N = len(events)
@@ -33,12 +34,12 @@ def build_fcs(events, widths, big=True, datatype='I', ranges=None, version='FCS3
         kw.append((k, v))
     text_begin = 58
     # two passes: keyword values containing offsets use fixed-width numerals
-    def assemble(db, de, ab, ae):
+    def assemble(db, de, ab, ae, sb=0, se=0):
         kw[:] = []
-        add('$BEGINANALYSIS', '%8d' % ab)
-        add('$ENDANALYSIS', '%8d' % ae)
-        add('$BEGINSTEXT', '%8d' % 0)
-        add('$ENDSTEXT', '%8d' % 0)
+        add('$BEGINANALYSIS', '%8d' % (ab if analysis_in_text else 0))
+        add('$ENDANALYSIS', '%8d' % (ae if analysis_in_text else 0))
+        add('$BEGINSTEXT', '%8d' % sb)
+        add('$ENDSTEXT', '%8d' % se)
         tb, te = (db, de) if text_data is None else text_data
         add('$BEGINDATA', '%8d' % tb)
         add('$ENDDATA', '%8d' % te)
@@ -81,18 +82,28 @@ def build_fcs(events, widths, big=True, datatype='I', ranges=None, version='FCS3
         abytes = analysis.encode('ISO-8859-1') if isinstance(analysis, str) else analysis
         ab = data_begin + len(data) + pad
         ae = ab + len(abytes) - 1
-    text = assemble(data_begin, data_end, ab, ae)
+    sbytes = b''
+    sb = se = 0
+    if stext is not None:
+        sbytes = stext.encode('ISO-8859-1')
+        sb = (ae + 1 if analysis is not None else data_begin + len(data)) + pad
+        se = sb + len(sbytes) - 1
+    text = assemble(data_begin, data_end, ab, ae, sb, se)
     assert text_begin + len(text) - 1 == text_end
     hb, he = (data_begin, data_end) if header_data is None else header_data
     header = '%-10s' % version + '%8d%8d%8d%8d' % (text_begin, text_end, hb, he)
-    header += ('%8d%8d' % (ab, ae)) if analysis is not None else (' ' * 16)
+    header += ('%8d%8d' % (ab, ae)) if (analysis is not None and analysis_in_header) \
+        else (' ' * 16)
     blob = header.encode() + text + b'\x00' * pad + data
     if analysis is not None:
         blob += b'\x00' * pad + abytes
     else:
         blob += b'\x00' * pad
+    if stext is not None:
+        blob = blob[:sb] if len(blob) >= sb else blob + b'\x00' * (sb - len(blob))
+        blob += sbytes + b'\x00' * pad
     lay = {'text_begin': text_begin, 'text_end': text_end, 'data_begin': data_begin,
-           'data_end': data_end, 'analysis_begin': ab, 'analysis_end': ae, 'length': len(blob),
+           'data_end': data_end, 'analysis_begin': ab, 'analysis_end': ae, 'length': len(blob), 'stext_begin': sb, 'stext_end': se,
            'keywords': dict((k, v) for k, v in kw if k not in drop)}
     return blob, lay
 
